@@ -79,6 +79,7 @@ pub fn check_positive(
     let sink = SharedSink::new();
     let obs = sut::new_obs(u64::MAX);
     obs.borrow_mut().record_syms = ctx.verbose;
+    obs.borrow_mut().pb = Some(pc.props.pb);
     let (verdict, file): (Verdict, Vec<u8>) = if pc.term.is_raw() {
         let size = if pc.term == Term::RawSized { Some(len) } else { None };
         match sut::raw_lzma_new(pc.props.lc, pc.props.lp, pc.props.pb, pc.dict, size, None) {
@@ -534,6 +535,17 @@ fn floors(tier: Tier, cov: &Cov) -> Vec<String> {
     if cov.group_nonzero("props") < 225 {
         miss.push(format!("only {}/225 lc/lp/pb settings", cov.group_nonzero("props")));
     }
+    // probability contexts as decoded (needs pb = 4 streams for all 16 position states)
+    if cov.group_nonzero("ctx_is_match") < 192 {
+        miss.push(format!("only {}/192 is_match contexts (state x pos_state) decoded", cov.group_nonzero("ctx_is_match")));
+    }
+    if cov.group_nonzero("ctx_len") < 96 {
+        miss.push(format!("only {}/96 length-coder contexts (coder x class x pos_state) decoded", cov.group_nonzero("ctx_len")));
+    }
+    let slot_ctx = (0..4 * 64).filter(|i| i % 64 <= 23 && cov.get("ctx_slot", *i as u32) > 0).count();
+    if slot_ctx < 96 {
+        miss.push(format!("only {}/96 (len_state x slot 0-23) contexts decoded", slot_ctx));
+    }
     if cov.group_nonzero("len_edge") < 6 {
         miss.push("not all edge lengths 2/9/10/17/18/273 decoded".into());
     }
@@ -558,6 +570,9 @@ fn summarize(cov: &Cov) -> J {
         .set("state_x_kind_cells_decoded", J::s(format!("{}/84", cells)))
         .set("props_settings", J::s(format!("{}/225", cov.group_nonzero("props"))))
         .set("distance_slots_decoded", J::i(slots))
+        .set("is_match_contexts_decoded", J::s(format!("{}/192", cov.group_nonzero("ctx_is_match"))))
+        .set("length_coder_contexts_decoded", J::s(format!("{}/96", cov.group_nonzero("ctx_len"))))
+        .set("len_state_x_slot_contexts_decoded", J::i(cov.group_nonzero("ctx_slot")))
         .set("highest_distance_slot", J::i(max_slot))
         .set("reach_note", J::s("distance slots above the highest listed one need more produced history than this tier builds (slot 56+ needs > 256 MiB); see DESIGN.md section 2"))
 }
